@@ -33,6 +33,8 @@ type CallOpts struct {
 	UF  int `json:"uf"`
 	UM  int `json:"um"`
 	Log int `json:"log"`
+	// Shared: pass option values that were created once per process
+	Shared bool `json:"-"`
 }
 
 type CallRet struct {
@@ -64,8 +66,21 @@ func (nullLogger) Print(...interface{})          {}
 func (nullLogger) Printf(string, ...interface{}) {}
 func (nullLogger) Println(...interface{})        {}
 
+// option values created once per process: a caller may well keep its
+// options in a variable and pass the same values to every call
+var sharedUF, sharedUM = fit.WithUnknownFields(), fit.WithUnknownMessages()
+
 func (o CallOpts) options() []fit.DecodeOption {
 	var out []fit.DecodeOption
+	if o.Shared {
+		if o.UF == 1 {
+			out = append(out, sharedUF)
+		}
+		if o.UM == 1 {
+			out = append(out, sharedUM)
+		}
+		return out
+	}
 	if o.Log == 1 {
 		out = append(out, fit.WithLogger(nullLogger{}))
 	}
